@@ -338,6 +338,23 @@ def reader_case(case):
     special = case.get("special")
     files = {}
     mkdir = None
+    if special == "open-fault":
+        # the open itself fails or the decompressor rejects the first bytes: every reader has its own open loop
+        how, zflag = case["how"], case["zflag"]
+        opts = rng.choice(READER_OPTS[fmt])
+        names = {"nonexistent": "no-such-file.dat", "plain-bytes": "in.dat", "empty": "in.dat", "second-of-two": "in.dat"}
+        filesd = {} if how == "nonexistent" else {"in.dat": (b"" if how == "empty" else docs[fmt].encode("utf-8", "surrogateescape"))}
+        args = opts + ([zflag] if zflag else []) + ["--ojson", "cat"] + (["ok.dat", "no-such-file.dat"] if how == "second-of-two" else [names[how]])
+        if how == "second-of-two":
+            filesd = {"ok.dat": docs[fmt].encode("utf-8", "surrogateescape")}
+            args = opts + ["--ojson", "cat", "ok.dat", "no-such-file.dat"]
+        r = R.mlr(args, files=filesd, env=ENV, cpu_s=20, watchdog=60)
+        bump(res, "reader_open_fault_runs")
+        judge(res, r, {"where": "reader-open", "fmt": fmt, "how": how}, f"reader {fmt} {' '.join(opts)} {zflag or ''} on {how}",
+              {"argv": args, "files": {k: v[:2000] for k, v in filesd.items()}})
+        res["nontrivial"] = True
+        res["sample"] = {"monitor": "reader-open-fault", "fmt": fmt, "how": how, "zflag": zflag}
+        return res
     if special == "empty":
         data, ops = "", ["empty"]
     elif special == "seps":
@@ -760,6 +777,15 @@ def run(chk):
             if i % 40 == 37:
                 c["special"] = ["empty", "seps", "header-only"][(i // 40) % 3]
             cases.append(c)
+        k = 0
+        for fmt in fmts:
+            for how in ("nonexistent", "plain-bytes", "empty", "second-of-two"):
+                for zflag in (None, "--gzin", "--zin", "--bz2in", "--zstdin"):
+                    if how in ("nonexistent", "second-of-two") and zflag and k % 2:
+                        k += 1
+                        continue
+                    k += 1
+                    cases.append({"seed": f"{chk.seed}/ro/{fmt}/{how}/{zflag}", "fmt": fmt, "special": "open-fault", "how": how, "zflag": zflag})
         chk.pmap(reader_case, cases, chunksize=8, label="r reader mutants")
     if not only or "d" in only:
         seeds = load_seed_programs()
